@@ -107,6 +107,13 @@ theorem after_stops_loop (ops : ValOps V) (r : IRunner V S X) (sched : ISched V 
     ∀ k, Ev.finish k ∈ (stepI ops r sched ls).1 → k ∉ r.intAfter :=
   stepI_next_no_after ops r sched hs ls ls' h
 
+/-- … and when the superstep ends in an interrupt (of either kind), every interrupt-after node that
+    completed in it is listed in the AfterNodes of that interrupt. -/
+theorem after_reported (ops : ValOps V) (r : IRunner V S X) (sched : ISched V S X) (hs : SchedKeeps sched)
+    (ls : LoopSt V S X) (cp : Checkpoint V S X) (info : Info S X) (h : (stepI ops r sched ls).2 = .intr cp info) :
+    ∀ k, Ev.finish k ∈ (stepI ops r sched ls).1 → k ∈ r.intAfter → k ∈ info.after :=
+  stepI_intr_after ops r sched hs ls cp info h
+
 /-- **interrupt_reported.** A call returns "interrupted" exactly when its trace carries an interrupt
     event, and the info of that event is the info returned (before/after/rerun lists, nested infos,
     state) — the error from which `ExtractInterruptInfo` extracts it. -/
